@@ -32,8 +32,9 @@ from ipv8.dht.payload import (
     StoreRequestPayload,
 )
 from ipv8.dht.storage import Storage
-from ipv8.messaging.interfaces.udp.endpoint import UDPv4Address
+from ipv8.messaging.interfaces.udp.endpoint import UDPv4Address, UDPv6Address
 from ipv8.messaging.payload_headers import BinMemberAuthenticationPayload
+from ipv8.peer import Peer
 
 from .. import core, fixtures, seams, simnet
 from ..ref import c15_dhtstore as ref
@@ -711,23 +712,30 @@ def community_alphabet(name: str) -> list:
 READER_VALUES = ("plain", "a0", "a1", "a2", "a2'", "m1", "broken", "claim", "junk", "forge1", "splice2")
 
 
-def reader_case(seed: int, honest: tuple, malicious: tuple, before: tuple = ()) -> tuple[list, tuple]:
+def reader_case(seed: int, honest: tuple, malicious: tuple, before: tuple = (), dual: bool = False) -> tuple[list, tuple]:
     """
     H (honest) and X (malicious) both hold values under the key; X's storage is filled directly, i.e. X answers with
     whatever it likes.  R knows both and performs find_values.  Returns (violations, observation).
 
     With ``before`` the same reader first performs a lookup while H holds ``before`` (and X nothing); then both
     responders' contents are replaced by ``honest`` / ``malicious`` and R looks the key up again.
+
+    With ``dual`` the second responder lives at an IPv6 address, so the reader keeps it in a second routing table and
+    reaches the two responders through two separate crawls of the same lookup.
     """
     net = simnet.World(("c15r", seed))
     try:
         idx = fixtures.rotate(seed, 4)
         names = ("H", "A", "X", "R")        # A and X only lend their keys for signing
-        nodes = {n: net.add_node(n, idx[i]) for i, n in enumerate(names)}
+        nodes = {n: net.add_node(n, idx[i], UDPv6Address("2001:db8::6", 1006) if dual and n == "X" else None)
+                 for i, n in enumerate(names)}
         ov = {n: nodes[n].add_overlay(DHTCommunity) for n in ("H", "X", "R", "A")}
         for n in ("H", "X"):
             ov["R"].walk_to(nodes[n].address)
         net.flush()
+        if dual and len(ov["R"].routing_tables) != 2:
+            return [("harness:reader-not-dual-stack", f"reader keeps {len(ov['R'].routing_tables)} routing table(s)")], ()
+        r_as_seen = Peer(ov["R"].my_peer.public_key.key_to_bin(), nodes["R"].address)
         a, x = ov["A"], ov["X"]
         key = a.my_peer.mid
         pk_a = a.my_peer.public_key.key_to_bin()
@@ -763,12 +771,13 @@ def reader_case(seed: int, honest: tuple, malicious: tuple, before: tuple = ()) 
 
         def lookup(h_vals: tuple, x_vals: tuple, label: str) -> tuple[list, tuple]:
             for name, vals in (("H", h_vals), ("X", x_vals)):
-                st = ov[name].get_storage(ov[name].my_peer)
+                st = ov[name].get_storage(r_as_seen if dual else ov[name].my_peer)   # the storage R is served from
                 st.items.pop(key, None)
                 for i, v in enumerate(reversed(vals)):
                     st.put(key, value(v), id_=b"slot-%d" % i)       # served in the listed order
             n0 = len(net.wire_log)
-            case = f"{label}honest responder holds {list(h_vals)}, malicious responder answers {list(x_vals)}"
+            case = (f"{label}honest responder holds {list(h_vals)}, "
+                    f"{'responder in the IPv6 routing table' if dual else 'malicious responder'} answers {list(x_vals)}")
             try:
                 report = net.drive(nodes["R"].run(r.find_values, key))
             except Exception as e:  # noqa: BLE001
@@ -806,9 +815,9 @@ _READER_SEED = 0
 def reader_chunk(chunk: list) -> list:
     out = []
     for case in chunk:
-        honest, malicious, before = (*case, ())[:3]
-        v, obs = reader_case(_READER_SEED, tuple(honest), tuple(malicious), tuple(before))
-        out.append((tuple(honest), tuple(malicious), tuple(before), v, obs))
+        honest, malicious, before, dual = (*case, (), False)[:4] if len(case) < 4 else case[:4]
+        v, obs = reader_case(_READER_SEED, tuple(honest), tuple(malicious), tuple(before), bool(dual))
+        out.append((tuple(honest), tuple(malicious), tuple(before), v, obs, bool(dual)))
     return out
 
 
@@ -823,6 +832,12 @@ def reader_cases(max_h: int, max_x: int) -> list:
     second = ("forge1", "forge2", "a1", "plain", "broken", "splice1", "splice2", "splice3")
     xs2 = [c for n in range(1, 3) for c in itertools.permutations(second, n)]
     cases += [((), x, (g,)) for g in ("a1", "a2") for x in xs2]
+    # dual-stack reader: the two responders sit in different routing tables (IPv4 / IPv6) and hold what honest nodes of
+    # two diverged address families would hold (versions of the same signer, another signer, unsigned data)
+    fam = ("plain", "a0", "a1", "a2", "m1")
+    one = [c for n in range(3) for c in itertools.permutations(fam, n)
+           if len([v for v in c if v[0] == "a"]) <= 1]
+    cases += [(h, x, (), True) for h in one for x in one if h or x]
     return cases
 
 
@@ -961,14 +976,16 @@ def run(ctx: core.Ctx) -> core.Report:
     res = core.pmap(reader_chunk, cases, ctx.jobs, chunk=8)
     reader_obs = set()
     seen_keys = set()
-    for honest, malicious, before, viol, obs in sorted(res, key=lambda r: (len(r[0]) + len(r[1]) + len(r[2]),
-                                                                          repr(r[:3]))):
-        reader_obs.add(obs)
+    for honest, malicious, before, viol, obs, dual in sorted(res, key=lambda r: (len(r[0]) + len(r[1]) + len(r[2]),
+                                                                                repr(r[:3]), r[5])):
+        reader_obs.add((obs, dual))
         for key, what in viol:
+            key = key + ("|dual-stack" if dual else "")
             if key not in seen_keys:
                 seen_keys.add(key)
                 violations.append(core.Violation(key, what, {"part": "reader", "seed": ctx.seed, "before": list(before),
-                                                             "honest": list(honest), "malicious": list(malicious)}))
+                                                             "honest": list(honest), "malicious": list(malicious),
+                                                             "dual": dual}))
     samples.append({"reader_case": {"before": list(cases[-1][2]), "honest": list(cases[-1][0]),
                                     "malicious": list(cases[-1][1])}})
 
@@ -1017,9 +1034,10 @@ ASSUMPTIONS = [
 def replay(ctx: core.Ctx, data: dict) -> list:
     part = data.get("part")
     if part == "reader":
+        dual = bool(data.get("dual"))
         v, _ = reader_case(data["seed"], tuple(data["honest"]), tuple(data["malicious"]),
-                           tuple(data.get("before", ())))
-        return [core.Violation(k, what) for k, what in v]
+                           tuple(data.get("before", ())), dual)
+        return [core.Violation(k + ("|dual-stack" if dual else ""), what) for k, what in v]
     if part == "store-peer":
         v, _ = store_peer_case(data["seed"], *data["case"])
         return [core.Violation(k, what) for k, what in v]
